@@ -135,7 +135,7 @@ def redirect(i: int, j: int, k: int, h: int, m: int, dq: int, response: bool, si
 
 DECLS = ["", "<?xml version='1.0' encoding='UTF-8'?>", '<?xml version="1.0" encoding="UTF-8"?>', "<?XML version='1.0'?>"]
 SEPS = ["", "\n", " ", "\r\n", "\n\n", "\t"]
-TXT = ["", "a", "\n", " x ", "l1\nl2", "&amp;", "&lt;b&gt;", "é", "'\"", "]]&gt;", "t\r\nu", "CORP\\user1", "EXAMPLE\\north", "a\\\\b", "\\g<0>"]
+TXT = ["", "a", "\n", " x ", "l1\nl2", "&amp;", "&lt;b&gt;", "é", "'\"", "]]&gt;", "t\r\nu", "CORP\\user1", "EXAMPLE\\north", "a\\\\b", "\\g&lt;0&gt;"]
 SAMLP = "urn:oasis:names:tc:SAML:2.0:protocol"
 
 
